@@ -9,3 +9,5 @@ extern int vs_active(void);
 extern unsigned long vs_steps(void);
 extern uint64_t vs_random(void);
 extern void vs_set_hang_cb(void (*cb)(const char *));
+extern void vs_set_group(int g);
+extern int vs_group(void);
